@@ -6,7 +6,11 @@
 //!  (B) sort sweep: worlds whose documents carry every combination of present / missing / multi-valued
 //!      keyword, i64 and f64 sort values x every sequence of 1-3 sort keys over
 //!      {_score, kw, n, f} x {asc, desc, default}: order of the returned hits, and the limited
-//!      response must be the prefix of the unlimited one.
+//!      response must be the prefix of the unlimited one;
+//!  (C) large-tie sweep: 24-64 documents in 1-3 classes of documents tied on every sort key, 1-3
+//!      segments x every single-key plan + some multi-key plans x {plain term under bm25/wand/bmw,
+//!      function_score, script_score, constant_score} x limit {1, 5, n}: every page is the prefix of
+//!      the full response and tied hits come in (segment, ordinal) order.
 
 use std::cmp::Ordering as O;
 use std::collections::BTreeSet;
@@ -261,6 +265,83 @@ fn sort_queries() -> Vec<Value> {
   vec![json!("a"), json!({"type": "match_all"}), json!("a b")]
 }
 
+// --- large-tie family: many documents that tie on every sort key, so that the (segment, ordinal)
+// tie-break decides who makes a page. Collectors that see hits out of document order (the
+// exhaustive scorer iterates a hash map) only show with tens of tied documents.
+
+/// Tie-class shapes: class 0 and 1 carry every sort value (and tie inside the class on all of
+/// them, score included), class 2 misses kw / n / f.
+fn tie_shapes() -> Vec<Value> {
+  vec![
+    json!({"body": "a", "kw": "x", "n": 1, "f": 0.5, "pop": 1}),
+    json!({"body": "a a", "kw": "y", "n": 2, "f": 1.5, "pop": 2}),
+    json!({"body": "a b", "pop": 3}),
+  ]
+}
+
+/// `classes` tie classes dealt round-robin over `n` documents with ids d00, d01, ... committed in
+/// `segs` nearly equal consecutive chunks.
+fn tie_world(n: usize, classes: usize, segs: usize) -> World {
+  let sh = tie_shapes();
+  let docs: Vec<Value> = (0..n)
+    .map(|i| {
+      let mut d = sh[i % classes].clone();
+      d["_id"] = json!(format!("d{i:02}"));
+      d
+    })
+    .collect();
+  let mut layout = vec![n / segs; segs];
+  *layout.last_mut().unwrap() += n - (n / segs) * segs;
+  World::new("body+kw+pop+n+f", c09::schema_json(), docs).with_layout(layout)
+}
+
+fn tie_classes_of(world: &World) -> usize {
+  let bodies: BTreeSet<&str> = world.docs.iter().filter_map(|d| d["body"].as_str()).collect();
+  bodies.len()
+}
+
+fn tie_worlds(sizes: &[usize]) -> Vec<World> {
+  let mut out = Vec::new();
+  for &n in sizes {
+    for classes in 1..=3 {
+      for segs in 1..=3 {
+        out.push(tie_world(n, classes, segs));
+      }
+    }
+  }
+  out
+}
+
+/// every single-key plan + a few multi-key plans
+fn tie_plans() -> Vec<Value> {
+  let mut v: Vec<Value> = sort_keys().into_iter().map(|k| json!([k])).collect();
+  v.push(json!([{"field": "kw", "order": "asc"}, {"field": "n", "order": "desc"}]));
+  v.push(json!([{"field": "n"}, {"field": "_score"}]));
+  v.push(json!([{"field": "_score", "order": "asc"}, {"field": "kw", "order": "desc"}]));
+  v.push(json!([{"field": "f", "order": "desc"}, {"field": "kw"}, {"field": "n"}]));
+  v.push(json!([]));
+  v
+}
+
+/// (query, execution): a plain term under all three strategies; custom-scored trees (scored
+/// exhaustively whatever the request says) under the default and the explicit exhaustive strategy.
+fn tie_queries() -> Vec<(Value, &'static str)> {
+  let term = json!({"type": "term", "field": "body", "value": "a"});
+  let fs = json!({"type": "function_score", "query": term, "boost_mode": "multiply", "functions": [{"type": "weight", "weight": 2.0}]});
+  let script = json!({"type": "script_score", "query": term, "script": "_score + pop"});
+  let cs = json!({"type": "bool", "must": [term], "should": [{"type": "constant_score", "filter": {"I64Range": {"field": "pop", "min": 1, "max": 1000}}, "boost": 2.0}]});
+  vec![
+    (json!("a"), "bm25"),
+    (json!("a"), "wand"),
+    (json!("a"), "bmw"),
+    (fs.clone(), "wand"),
+    (fs, "bm25"),
+    (script.clone(), "wand"),
+    (script, "bm25"),
+    (cs, "wand"),
+  ]
+}
+
 /// Trees in which one term key feeds two scoring leaves (H9). In assertion builds search_segment
 /// panics on them (C16's concern); they are only judged here when a response comes back.
 fn dup_term_trees() -> Vec<Value> {
@@ -351,6 +432,46 @@ pub fn run(ctx: &Ctx) -> i32 {
   let timed_out = AtomicBool::new(false);
   let outcomes: Mutex<BTreeSet<String>> = Mutex::new(BTreeSet::new());
 
+  // ---- (C) large-tie sweep (small and run first, so that a busy machine never caps it away)
+  let tie_sizes: Vec<usize> = if quick { vec![24, 64] } else { vec![24, 32, 40, 48, 56, 64] };
+  let ws_c = tie_worlds(&tie_sizes);
+  let plans_c = tie_plans();
+  let qs_c = tie_queries();
+  let deadline_c = c09::budget(if quick { 10.0 } else { 120.0 });
+  let tie_cases = AtomicU64::new(0);
+  let (done_c, capped_c) = c09::par_sweep(&ws_c, &rep, deadline_c, |wi, world| {
+    let idx = world.build();
+    let reader = idx.reader().expect("reader");
+    let info = WorldInfo::new(world);
+    let n = world.docs.len();
+    let mut local: BTreeSet<String> = BTreeSet::new();
+    for (qi, (q, exec)) in qs_c.iter().enumerate() {
+      for (pi, plan) in plans_c.iter().enumerate() {
+        for (li, limit) in [1usize, 5, n].iter().enumerate() {
+          evals.fetch_add(1, Ordering::Relaxed);
+          tie_cases.fetch_add(1, Ordering::Relaxed);
+          match check_case(&reader, &info, q, plan, exec, *limit, true) {
+            Ok((hits, j, s, m)) => {
+              judged_scores.fetch_add(j as u64, Ordering::Relaxed);
+              skipped_scores.fetch_add(s as u64, Ordering::Relaxed);
+              multi_reading.fetch_add(m as u64, Ordering::Relaxed);
+              if *limit < n {
+                // the page is cut inside a tie class: the tie-break decides who is on it
+                nontrivial.fetch_add(1, Ordering::Relaxed);
+              }
+              local.insert(format!("tie-sweep: {}", if hits < n { "page cut inside a tie class" } else { "all returned" }));
+            }
+            Err((sig, what)) => {
+              local.insert(format!("tie-sweep: violation[{}]", sig.unwrap_or("-")));
+              log.add(sig, vec![2, wi as u64, qi as u64, pi as u64, li as u64], || format!("{} documents in {} tie class(es), layout {:?} (doc i = shape i mod classes of {}) q={} sort={} exec={} limit={}: {}", n, tie_classes_of(world), world.layout, json!(tie_shapes()), q, plan, exec, limit, what), || case_json("inputmc-score/tie", world, q, plan, exec, *limit));
+            }
+          }
+        }
+      }
+    }
+    outcomes.lock().extend(local);
+  });
+
   // ---- (A) score sweep
   let ws_a = if quick { c09::worlds(3, &[], false) } else { c09::worlds(4, &[5, 6], false) };
   let trees = c09::scored_trees();
@@ -421,7 +542,7 @@ pub fn run(ctx: &Ctx) -> i32 {
   let plans = if quick { sort_plans(2, 2) } else { sort_plans(3, 99) };
   let plans3_quick = if quick { sort_plans(3, 3).into_iter().filter(|p| p.as_array().unwrap().len() == 3).collect::<Vec<_>>() } else { vec![] };
   let qs_b = sort_queries();
-  let deadline_b = c09::budget(if quick { 30.0 } else { 850.0 });
+  let deadline_b = c09::budget(if quick { 28.0 } else { 850.0 });
   let (done_b, capped_b) = c09::par_sweep(&ws_b, &rep, deadline_b, |wi, world| {
     let idx = world.build();
     let reader = idx.reader().expect("reader");
@@ -457,7 +578,7 @@ pub fn run(ctx: &Ctx) -> i32 {
     outcomes.lock().extend(local);
   });
 
-  timed_out.store(capped_a || capped_b, Ordering::Relaxed);
+  timed_out.store(capped_a || capped_b || capped_c, Ordering::Relaxed);
   log.flush(&rep);
   rep.add_evals(evals.load(Ordering::Relaxed));
   let to = timed_out.load(Ordering::Relaxed);
@@ -467,14 +588,15 @@ pub fn run(ctx: &Ctx) -> i32 {
   }
   let cov = vcore::cov! {
     "distinct_nontrivial" => nontrivial.load(Ordering::Relaxed),
-    "rule" => "score sweep: a (world, tree, sort plan, execution) case is non-trivial when at least 2 hits come back and at least one score was recomputed; sort sweep: a (world, query, sort plan, limit) case is non-trivial when at least 2 hits come back (so the comparator is exercised)",
+    "rule" => "score sweep: a (world, tree, sort plan, execution) case is non-trivial when at least 2 hits come back and at least one score was recomputed; sort sweep: a (world, query, sort plan, limit) case is non-trivial when at least 2 hits come back (so the comparator is exercised); tie sweep: a case is non-trivial when limit < number of matches, so the page is cut inside a class of documents tied on every sort key",
     "score_sweep" => json!({"worlds": ws_a.len(), "worlds_completed": done_a, "trees": trees.len(), "sort_plans": sorts_a, "executions": ["bm25", "wand"], "hit_scores_recomputed": judged_scores.load(Ordering::Relaxed), "hit_scores_not_judged_docs_silent": skipped_scores.load(Ordering::Relaxed), "hit_scores_with_two_admissible_readings": multi_reading.load(Ordering::Relaxed)}),
     "sort_sweep" => json!({"worlds": ws_b.len(), "worlds_completed": done_b, "world_space": format!("every sequence of {} of {} sort-value shapes x {} body assignment(s) x every 1-2 segment layout", if quick { "2..3" } else { "2..4" }, nshape, if quick { 1 } else { 2 }), "sort_plans": plans.len() + plans3_quick.len(), "plan_space": if quick { "all sequences of 1-2 keys over {_score,kw,n,f} x {asc,desc,default}; 3-key plans with pairwise distinct fields for the first query only" } else { "all sequences of 1-3 keys over {_score,kw,n,f} x {asc,desc,default}" }, "queries": qs_b, "limits": [100, 2]}),
+    "tie_sweep" => json!({"worlds": ws_c.len(), "worlds_completed": done_c, "world_space": format!("{:?} documents x {{1,2,3}} tie classes (identical documents per class; class 3 misses kw/n/f) x {{1,2,3}} segments", tie_sizes), "sort_plans": plans_c, "queries_x_execution": qs_c.iter().map(|(q, e)| json!({"query": q, "execution": e})).collect::<Vec<_>>(), "limits": "{1, 5, n}", "cases": tie_cases.load(Ordering::Relaxed), "oracle": "every page is the prefix of the limit-100 response of the same request; hits strictly ordered by the plan then (segment, ordinal); scores recomputed when the plan contains _score"}),
     "duplicate_term_key_trees" => json!({"panicked_debug_assert": h9_panics.load(Ordering::Relaxed), "answered": h9_answers.load(Ordering::Relaxed)}),
     "distinct_observed_outcomes" => outs.len(),
     "observed_outcomes" => outs.iter().cloned().collect::<Vec<_>>(),
     "failure_classes" => log.classes().iter().map(|(s, n)| json!({"signature": s, "cases": n})).collect::<Vec<_>>(),
-    "cap_hit" => if to { Some(format!("wall budget (score sweep until {deadline_a}s, sort sweep until {deadline_b}s; worlds are processed simplest-first)")) } else { None },
+    "cap_hit" => if to { Some(format!("wall budget (score sweep until {deadline_a}s, sort sweep until {deadline_b}s, tie sweep until {deadline_c}s; worlds are processed simplest-first)")) } else { None },
     "exhaustive" => !to,
   };
   rep.finish(
